@@ -479,3 +479,10 @@ def r9(ctx: Ctx) -> None:
         return ("raise", 0) if bad else ("ok",)
 
     table_check_cases(ctx, f, f.node, "Order.__init__ validation", cases, worlds, lambda t: key(t) in atoms, spec)
+
+
+@rule("C04.R10", "removal by equality removes the order meant: Order equality implies equal order ids", "T6/T9 (same rule as C02.R6)", floor=2)
+def r10(ctx: Ctx) -> None:
+    from .c02 import order_eq_rule
+
+    order_eq_rule(ctx)
